@@ -146,7 +146,7 @@ func FilterAtoms() []query.Q {
 // SymbolAtoms wraps text atoms in sym:.
 func SymbolAtoms() []query.Q {
 	var out []query.Q
-	for _, p := range []string{"abc", "ab", "abd", "bca", "éab", "ABC", "c", "abcabc", "cab"} {
+	for _, p := range []string{"abc", "ab", "abd", "bca", "éab", "ABC", "c", "abcabc", "cab", "größe", "öße", "ße", "abcé", "cé", "é", "éé", "GRÖSSE", "größen"} {
 		for _, cs := range []bool{true, false} {
 			out = append(out, &query.Symbol{Expr: &query.Substring{Pattern: p, CaseSensitive: cs, Content: true}})
 		}
